@@ -7,6 +7,7 @@ import (
 	"strings"
 	"time"
 
+	"github.com/openkruise/rollouts/api/v1alpha1"
 	"github.com/openkruise/rollouts/api/v1beta1"
 	"github.com/openkruise/rollouts/pkg/util"
 	"github.com/openkruise/rollouts/pkg/verifrt"
@@ -266,3 +267,106 @@ func VerifC07_CanaryTrafficRoutingWaitHasAWakeUp()    { c02Canary(2) }
 func VerifC07_BlueGreenTrafficRoutingWaitHasAWakeUp() { c02BlueGreen(2) }
 func VerifC07_CanaryTimedPauseHasAWakeUp()            { c02Canary(4) }
 func VerifC07_BlueGreenTimedPauseHasAWakeUp()         { c02BlueGreen(4) }
+
+// VerifC02_InitializingRecordsTheRevisionBeingReleased: the first reconcile of a new release rebuilds the release
+// sub-status from scratch.  Every later decision compares against what is written here: the step cursor starts at the
+// first step in the Init state, the next index is the one the step sequence gives, and the revision recorded as the one
+// being released is the workload's update revision (not the pod-template hash, which differs for Deployments and is
+// what the pods are *labelled* with) — otherwise the next reconcile sees "a different revision was pushed" and treats
+// the release as a continuous release, or a rollback to the stable revision is not recognised.
+func VerifC02_InitializingRecordsTheRevisionBeingReleased() {
+	vSimple = true
+	n := verifrt.Concrete(verifrt.IntRange("steps", 1, verifrt.Bound("steps.max", 3, 5)))
+	blueGreen := verifrt.Bool("blueGreen")
+	var r *v1beta1.Rollout
+	if blueGreen {
+		r = vBlueGreenRollout(n, 1)
+	} else {
+		r = vCanaryRollout(n, 1)
+	}
+	r.Status.Conditions[0].Reason = v1alpha1.ProgressingReasonInitializing
+	// whatever an earlier release left in the status
+	stale := r.Status.GetSubStatus()
+	stale.CurrentStepIndex = int32(verifrt.IntRange("stale.currentStepIndex", 0, n+1))
+	stale.NextStepIndex = int32(verifrt.IntRange("stale.nextStepIndex", -1, n+1))
+	stale.CurrentStepState = v1beta1.CanaryStepStateCompleted
+	stale.StableRevision = "old-stable"
+	if blueGreen {
+		r.Status.BlueGreenStatus.UpdatedRevision = "old-canary"
+	} else {
+		r.Status.CanaryStatus.CanaryRevision = "old-canary"
+	}
+	w := vWorkload()
+	if verifrt.Bool("wl.noPodTemplateHash") {
+		w.PodTemplateHash = ""
+	}
+	if verifrt.Bool("wl.hasRolloutID") {
+		w.Labels = map[string]string{v1beta1.RolloutIDLabel: "id-7"}
+	}
+	w.IsInRollback = verifrt.Bool("wl.inRollback")
+	w.Generation = int64(verifrt.IntRange("wl.generation", 1, 9))
+	verifrt.Stub(stubGetWorkloadForRef, func(f *util.ControllerFinder, rollout *v1beta1.Rollout) (*util.Workload, error) { return w, nil })
+	initDone := verifrt.Bool("initializing.done")
+	initFailed := verifrt.Bool("initializing.failed")
+	verifrt.Stub("(*github.com/openkruise/rollouts/pkg/controller/rollout.RolloutReconciler).doProgressingInitializing", func(rr *RolloutReconciler, c *RolloutContext) (bool, error) {
+		if initFailed {
+			return false, vErr
+		}
+		return initDone, nil
+	})
+	cli := &symclient.Client{}
+	rec := c10Reconciler(cli)
+	newStatus := r.Status.DeepCopy()
+	recheck, err := rec.reconcileRolloutProgressing(r, newStatus)
+	if initFailed {
+		verifrt.Assert(err != nil, "C02.initializing.errorPropagated")
+		return
+	}
+	verifrt.Assert(err == nil, "C02.initializing.noError")
+	sub := newStatus.GetSubStatus()
+	verifrt.Assert(sub != nil, "C02.initializing.subStatusCreated")
+	if sub == nil {
+		return
+	}
+	if blueGreen {
+		verifrt.Assert(newStatus.CanaryStatus == nil && newStatus.BlueGreenStatus != nil, "C02.initializing.subStatusMatchesStrategy")
+		verifrt.Assert(newStatus.BlueGreenStatus.UpdatedRevision == w.CanaryRevision, "C02.initializing.recordsTheUpdateRevision")
+		verifrt.Assert(newStatus.GetCanaryRevision() == w.CanaryRevision, "C02.initializing.recordsTheUpdateRevision")
+	} else {
+		verifrt.Assert(newStatus.BlueGreenStatus == nil && newStatus.CanaryStatus != nil, "C02.initializing.subStatusMatchesStrategy")
+		verifrt.Assert(newStatus.CanaryStatus.CanaryRevision == w.CanaryRevision, "C02.initializing.recordsTheUpdateRevision")
+	}
+	verifrt.Assert(sub.StableRevision == w.StableRevision, "C02.initializing.recordsTheStableRevision")
+	verifrt.Assert(sub.CurrentStepIndex == 1 && sub.CurrentStepState == v1beta1.CanaryStepStateInit, "C02.initializing.startsAtTheFirstStepInInit")
+	verifrt.Assert(newStatus.CurrentStepIndex == 1 && newStatus.CurrentStepState == v1beta1.CanaryStepStateInit, "C02.initializing.topLevelCursorAgrees")
+	verifrt.Assert(sub.NextStepIndex == util.NextBatchIndex(r, 1), "C02.initializing.nextIndexFollowsTheSequence")
+	if n >= 2 {
+		verifrt.Assert(sub.NextStepIndex == 2, "C02.initializing.nextIndexFollowsTheSequence")
+	} else {
+		verifrt.Assert(sub.NextStepIndex == -1, "C02.initializing.nextIndexFollowsTheSequence")
+	}
+	verifrt.Assert(sub.ObservedWorkloadGeneration == w.Generation, "C02.initializing.recordsTheWorkloadGeneration")
+	verifrt.Assert(sub.RolloutHash == r.Annotations[util.RolloutHashAnnotation], "C02.initializing.recordsThePlanHash")
+	wantID := w.CanaryRevision
+	if w.IsInRollback {
+		wantID = "rollback-" + w.CanaryRevision
+	}
+	if w.Labels[v1beta1.RolloutIDLabel] != "" {
+		wantID = w.Labels[v1beta1.RolloutIDLabel]
+	}
+	verifrt.Assert(sub.ObservedRolloutID == wantID, "C02.initializing.recordsTheRolloutID")
+	verifrt.Assert(sub.FinalisingStep == "" && sub.PodTemplateHash == "" && sub.Message == "", "C02.initializing.nothingStaleCarriedOver")
+	cond := util.GetRolloutCondition(*newStatus, v1beta1.RolloutConditionProgressing)
+	verifrt.Assert(cond != nil, "C02.initializing.conditionKept")
+	if cond == nil {
+		return
+	}
+	if initDone {
+		verifrt.Cover("C02.initializing.done")
+		verifrt.Assert(cond.Reason == v1alpha1.ProgressingReasonInRolling, "C02.initializing.doneMovesToInRolling")
+	} else {
+		verifrt.Cover("C02.initializing.pending")
+		verifrt.Assert(cond.Reason == v1alpha1.ProgressingReasonInitializing, "C02.initializing.pendingStaysInitializing")
+		verifrt.Assert(recheck != nil, "C02.initializing.pendingComesWithAWakeUp")
+	}
+}
